@@ -37,6 +37,10 @@ impl<'a> __Field<'a> {
             .values()
             .filter(|input_value| include_deprecated || !input_value.deprecation.is_deprecated())
             .filter(|input_value| is_visible(ctx, &input_value.visible))
+            .filter(|input_value| {
+                self.visible_types
+                    .contains(registry::MetaTypeName::concrete_typename(&input_value.ty))
+            })
             .map(|input_value| __InputValue {
                 registry: self.registry,
                 visible_types: self.visible_types,
